@@ -450,3 +450,90 @@ func init() {
 		Technique: "provenance invariant by bounded symbolic execution: after each step everything reachable from the session is walked and must not reference the tagged packet buffer (exact per path, all inputs in the bound)",
 		Outside:   []string{"the four handlers' retained state (DHCP leases, router / DNS tables): not encoded in this session", "SSDP / UPnP"}})
 }
+
+func init() {
+	register(&Prop{
+		ID:        "C07",
+		Technique: "bounded symbolic execution of every session-level send path with a recording connection; each recorded frame is decoded by the reference decoder and its checksums decided by SMT (directly for IPv4/ICMPv4, as a structural obligation over an uninterpreted Checksum for ICMPv6, with C15 supplying Checksum == RFC 1071)",
+		Jobs: func(tier string) []Job {
+			r := []string{"done"}
+			uf := Config{MaxLoop: 1000, MaxWall: 600, Stubs: map[string]bool{"uf-checksum": true}}
+			direct := Config{MaxLoop: 1000, MaxWall: 600, Stubs: map[string]bool{}}
+			var jobs []Job
+			for w := int64(0); w <= 6; w++ {
+				c := uf
+				if w == 1 {
+					c = direct
+				}
+				jobs = append(jobs, Job{Pkg: "root", Func: "VerifC07Send", Args: []int64{w}, Cfg: c, Reach: r})
+			}
+			for w := int64(0); w <= 5; w++ {
+				jobs = append(jobs, Job{Pkg: "handlers/arp_spoofer", Func: "VerifC07ARP", Args: []int64{w}, Cfg: direct, Reach: []string{"processed"}})
+			}
+			jobs = append(jobs, arpJobs()...)
+			return jobs
+		},
+		Filter: func(f Finding) bool {
+			if f.Job.Pkg == "root" {
+				return true
+			}
+			return f.Kind == "assert" && len(f.Expr) >= 4 && f.Expr[:4] == "C07:"
+		},
+		Bounds: func(tier string) map[string]string {
+			return map[string]string{
+				"Session.arpRequest":                  "every destination MAC, sender and target (MAC, IPv4)",
+				"ICMP4SendEchoRequest":                "every source/destination IPv4 address, destination MAC, id, seq; IPv4 header and ICMP checksums verified directly under the big-endian reference sum",
+				"ICMP6SendEchoRequest":                "every source/destination IPv6 address, destination MAC, id, seq",
+				"ICMP6SendNeighborAdvertisement / ICMP6SendNeighbourSolicitation": "every link-local source/destination/target, target MAC; NS destination = solicited-node multicast of the target",
+				"ICMP6SendRouterSolicitation / ICMP6SendRouterAdvertisement":      "arbitrary host LLA; RA with one arbitrary prefix (any length 0..128) and an optional RDNSS server, DNSSL \"lan\", MTU, source LLA",
+				"ARP handler":                         "RequestRaw, Reply, Request, RequestTo, Probe, AnnounceTo with every destination MAC, sender and target (MAC, IPv4); plus every frame emitted along the C13 harnesses (spoof replies, probe rejects, spoof-loop announcements and the corrective request)",
+				"NIC configuration":                   "symbolic host and router MAC, host link-local address; home LAN 192.168.0.0/24",
+			}
+		},
+		Assumptions: []string{
+			"ICMPv6 checksum: Checksum is modelled as an uninterpreted function; the obligation is that its input is exactly the RFC 4443 pseudo-header followed by the message with a zero checksum field and that the result is stored in the checksum field low byte first; C15 decides Checksum == RFC 1071 (direct verification of the one's-complement sum over 70+ symbolic bytes did not finish in 300 s on z3 / cvc5 / z3-int and is replaced by this decomposition); native replays verify the checksum directly",
+			"the multicast 33:33 MAC rule is asserted where the library chooses the destination (NS solicited-node, RS all-routers); for caller-supplied (MAC, IP) pairs the frame must carry them as given",
+			"pooled frame buffers start with arbitrary contents",
+		},
+		Outside: []string{
+			"frames emitted by the DHCP, ICMPv6-spoofing and naming handlers (offers/acks/naks, NBNS/mDNS/LLMNR/SSDP queries): not encoded in this session",
+			"the purge probe goroutine beyond its call to arpRequest / NS / echo (those functions are covered with arbitrary arguments)",
+		},
+	})
+}
+
+func arpJobs() []Job {
+	r := []string{"processed"}
+	c := cfg(64, 900)
+	jobs := []Job{
+		{Pkg: "handlers/arp_spoofer", Func: "VerifC13Process", Cfg: c, Reach: r},
+		{Pkg: "handlers/arp_spoofer", Func: "VerifC13HuntOps", Cfg: c, Reach: r},
+	}
+	for _, m := range []int64{0, 1} {
+		for _, a := range []int64{0, 1, 2} {
+			jobs = append(jobs, Job{Pkg: "handlers/arp_spoofer", Func: "VerifC13Loop", Args: []int64{m, a}, Cfg: c, Reach: r})
+		}
+	}
+	return jobs
+}
+
+func init() {
+	register(&Prop{
+		ID:        "C13",
+		Technique: "bounded symbolic execution of the real ARP handler (real Session via NewSession with a recording connection): ProcessPacket from symbolic hunt lists / offer state on every valid ARP frame; StartHunt/StopHunt semantics; the spoof loop with StopHunt / Close delivered between iterations",
+		Jobs:      func(tier string) []Job { return arpJobs() },
+		Filter:    prefixFilter("C13:", true),
+		Bounds: func(tier string) map[string]string {
+			return map[string]string{
+				"ProcessPacket": "every 42-byte ARP frame accepted by the real Parse (all field values), hunt lists of 0..2 arbitrary (MAC, LAN IP) entries, an optional outstanding DHCP offer for an arbitrary MAC; symbolic host / router MAC",
+				"hunt ops":      "StartHunt / StopHunt / IsHunting with an arbitrary MAC (possibly already hunted) on hunt lists of 0..2 entries",
+				"spoof loop":    "one hunted host plus 0..1 other hunted hosts (arbitrary IPs, possibly equal); StopHunt or Close arrives after 0, 1 or 2 iterations (delivered from inside the connection's WriteTo, i.e. between two iterations); the ticker arm of select is always enabled",
+			}
+		},
+		Assumptions: []string{
+			"sequential semantics of the loop: time is abstracted to 'next iteration'; StopHunt/Close are delivered at iteration boundaries only (goroutine-level interleavings inside an iteration are not explored)",
+			"stubs as in C01",
+		},
+		Outside: []string{"the 6 s period and 'within one cycle' in wall-clock time", "more than 3 hunted hosts"},
+	})
+}
